@@ -593,9 +593,129 @@ def run(ctx):
     run_model(ctx)
 
 
+def gen_model_history(r, name):
+    """element-level history for the R-vs-M correspondence: build, ddlist (the model's initial state), one session
+    through a read-only (75%) or write-mode handle; handles are released explicitly so that Hclose is compared too"""
+    b, inv = gen_build(r)
+    b = [l for l in b if l not in ("snapshot", "dump 0")]
+    L = ["history " + name] + b + ["ddlist 0", "snapshot"]
+    ro = r.random() < 0.75
+    L.append("hopen 0 %d 0" % (r.choice([1, 1, 1, 5]) if ro else 3))
+    slots = {}
+    if ro:
+        L.append("vstart 0")
+    n = r.randrange(8, 40)
+    for _ in range(n):
+        t, rf = pick_elem(r, inv, 0.15)
+        a = r.randrange(4)
+        if ro:
+            vdn = r.choice(inv.vdatas)[0] if inv.vdatas and r.random() < 0.9 else "nosuch"
+            vgn = r.choice(inv.vgroups) if inv.vgroups and r.random() < 0.9 else "nosuch"
+            s_, g_ = r.randrange(3), r.randrange(3)
+            L.append(r.choice([
+                "startaccess %d 0 %d %d 1" % (a, t, rf), "startaccess %d 0 %d %d 1" % (a, t, rf), "startread %d 0 %d %d" % (a, t, rf),
+                "startaccess %d 0 %d %d %d" % (a, t, rf, r.choice([3, 2, 19])), "startwrite %d 0 %d %d %d" % (a, t, rf, r.choice([0, 8])),
+                "write %d %d 3" % (a, r.choice([1, 9])), "read %d %d" % (a, r.choice([0, 1, 4])), "seek %d 1 0" % a,
+                "trunc %d %d" % (a, r.choice([0, 2])), "setlength %d %d" % (a, r.choice([0, 6])), "appendable %d" % a,
+                "endaccess %d" % a, "endaccess %d" % a, "putelement 0 %d %d 12 4" % (t, rf),
+                "dupdd 0 1100 %d %d %d" % (r.randrange(1, 9), t, rf), "deldd 0 %d %d" % (t, rf), "reuse 0 %d %d" % (t, rf),
+                "hlcreate %d 0 %d %d 8 2" % (a, t, rf), "hxcreate %d 0 %d %d 7 0 0" % (a, t, rf), "hccreate %d 0 %d %d 1" % (a, t, rf),
+                "hmccreate %d 0 %d %d 12 4" % (a, t, rf), "hlconvert %d 8 2" % a, "hsync 0", "hcache 0 %d" % r.choice([0, 1]),
+                "vattach %d 0 -1 w" % g_, "vsattach %d 0 -1 w" % s_, "vattachn %d 0 %s %s" % (g_, vgn, r.choice("rrw")),
+                "vsattachn %d 0 %s %s" % (s_, vdn, r.choice("rrw")), "vsetname %d x" % g_, "vsetclass %d x" % g_,
+                "vaddtagref %d %d %d" % (g_, t, rf), "vdeletetagref %d %d %d" % (g_, t, rf), "vssetname %d x" % s_,
+                "vssetclass %d x" % s_, "vswrite %d 1 2" % s_, "vdetach %d" % g_, "vsdetach %d" % s_,
+                "vdeleten 0 %s" % vgn, "vsdeleten 0 %s" % vdn]))
+        else:
+            L.append(r.choice([
+                "startaccess %d 0 %d %d 1" % (a, t, rf), "startread %d 0 %d %d" % (a, t, rf), "read %d %d" % (a, r.choice([0, 1, 4])),
+                "seek %d 1 0" % a, "endaccess %d" % a, "endaccess %d" % a, "hsync 0", "hcache 0 %d" % r.choice([0, 1])]))
+    for a in range(4):
+        L.append("endaccess %d" % a)
+    for k in range(3):
+        L += ["vsdetach %d" % k, "vdetach %d" % k]
+    L += ["hclose 0", "closeall", "check"]
+    return L
+
+
+RC_DECISIVE = set("""startaccess startread startwrite write trunc setlength putelement dupdd deldd reuse hlcreate hxcreate hccreate
+hmccreate hlconvert hsync hcache vattach vsattach vattachn vsattachn vsetname vsetclass vaddtagref vdeletetagref vssetname vssetclass
+vswrite vdeleten vsdeleten appendable endaccess vdetach vsdetach hclose hopen""".split())
+
+
 def run_model(ctx):
-    """R vs M on element-level histories"""
-    return
+    """R vs M (coq/ROModel.v, extracted) on element-level sessions: result class of every decisive call and
+    'did a write reach the device' of every modelled call"""
+    r = ctx.rng
+    exe, spec = tools(ctx)
+    mod = ctx.model("ro_model", ["romodel_main.ml"], ["ro_model"])
+    nh = 120 if ctx.tier == "quick" else 2000
+    hists = [gen_model_history(r, "m%d" % i) for i in range(nh)]
+    wd = os.path.join(ctx.bdir, "harness", "c14m-%d" % os.getpid())
+    shutil.rmtree(wd, ignore_errors=True)
+    os.makedirs(wd)
+    flat = [l for h in hists for l in h]
+    p = os.path.join(wd, "in.hist")
+    open(p, "w").write("\n".join(flat) + "\n")
+    rc, R = vc.run_lines(exe, p, timeout=1500, args=[wd])
+    po = os.path.join(wd, "out.txt")
+    open(po, "w").write("\n".join(R) + "\n")
+    rcm, M = vc.run_lines(mod, po, timeout=600, args=[p])
+    rcs, S = vc.run_lines(spec, po, timeout=600, args=[p])
+    shutil.rmtree(wd, ignore_errors=True)
+    if rcm != 0 or len(M) != len(flat):
+        raise vc.BuildError("model driver failed rc=%d (%d lines for %d): %s" % (rcm, len(M), len(flat), "\n".join(M[-5:])))
+    Rl = [""] * len(flat)
+    for l in R:
+        m = re.match(r"^(\d+) (.*)$", l)
+        if m and not m.group(2).startswith("pre ") and 1 <= int(m.group(1)) <= len(flat) and not Rl[int(m.group(1)) - 1]:
+            Rl[int(m.group(1)) - 1] = m.group(2)
+    compared, rc_compared, mism, opk, ro_s, rw_s, rw_close_w = 0, 0, [], {}, 0, 0, 0
+    pos = 0
+    for h in hists:
+        lo, hi = pos, pos + len(h)
+        pos = hi
+        mode_ro = None
+        bad = None
+        for i in range(lo, hi):
+            mt = M[i].split()
+            if len(mt) < 4 or mt[1] != "M":
+                continue
+            op = flat[i].split()[0]
+            rt = Rl[i].split()
+            if not rt or rt[0] not in ("ok", "fail"):
+                continue
+            if op == "hopen":
+                mode_ro = (int(flat[i].split()[2]) & 2) == 0
+                ro_s += mode_ro
+                rw_s += not mode_ro
+            wf = next((x for x in rt if x.startswith("w=")), "w=0,0,0")
+            rw = "w0" if wf.split(",")[1] == "0" else "w1"
+            compared += 1
+            opk[op] = opk.get(op, 0) + 1
+            if op == "hclose" and not mode_ro and rw == "w1":
+                rw_close_w += 1
+            if op in RC_DECISIVE:
+                rc_compared += 1
+                if rt[0] != mt[2] and bad is None:
+                    bad = (i, "result R=%s M=%s" % (rt[0], mt[2]))
+            if rw != mt[3] and bad is None:
+                bad = (i, "device write R=%s M=%s" % (rw, mt[3]))
+        ctx.case(("model",) + tuple(h[1:]), True)
+        if bad is not None:
+            mism.append((h, bad, lo))
+    for h, (i, what), lo in mism[:2]:
+        # is it also a failing input of the property? (the monitor's verdict on the same run)
+        sv = [j for j in range(lo, lo + len(h)) if S[j].split(" ", 1)[-1].startswith("VIOLATION")]
+        txt = ["# C14: element-level session; library (R) vs Coq effect model ROModel (M) differ (%s)" % what,
+               "# run: bin/check C14 --replay <this file>"] + h + [
+               "# first R/M difference at line %d: %s" % (i - lo + 1, flat[i]), "#   library: %s" % Rl[i][:80], "#   model  : %s" % M[i]]
+        if sv:
+            txt.append("# the monitor specification also flags line %d: %s" % (sv[0] - lo + 1, flat[sv[0]]))
+        ctx.violation("R-vs-M correspondence broken (%s) at: %s" % (what, flat[i]), "\n".join(txt), found=bool(sv))
+    ctx.corr("R~ROModel", histories=len(hists), read_only_sessions=ro_s, write_mode_sessions=rw_s, calls_compared=compared,
+             result_classes_compared=rc_compared, mismatching_histories=len(mism), op_mix=opk,
+             write_mode_closes_that_wrote_the_version=rw_close_w)
 
 
 MUT_ALL = set("""putelement startwrite write trunc setlength hlcreate hlconvert hxcreate hccreate hmccreate dupdd deldd reuse
